@@ -488,7 +488,7 @@ fn check(ctx: &Ctx, env: &Env, d: &Doc) -> Check {
     if nt {
         ctx.class("nontrivial");
         ctx.nontrivial(hash_of(&dj));
-        if hash_of(&dj) % 11 == 0 {
+        if (ctx.samples_len() < 2 || hash_of(&dj) % 11 == 0) {
             ctx.sample(8, || doc_json(d));
         }
     }
